@@ -274,7 +274,7 @@ func (o *ObjectSchema) extractPropertyValue(propertyID string, v reflect.Value, 
 
 	if property.emptyIsDefault {
 		// Handle the case where the empty value corresponds to the default value.
-		defaultValue := reflect.New(property.ReflectedType()).Elem().Convert(valPtr.Type()).Interface()
+		defaultValue := reflect.Zero(valPtr.Type()).Interface()
 		if reflect.DeepEqual(defaultValue, value) {
 			return nil, nil
 		}
@@ -411,7 +411,7 @@ func (o *ObjectSchema) validateStruct(data any) error {
 		value := valPtr.Interface()
 		if property.emptyIsDefault {
 			// Handle the case where the empty value corresponds to the default value.
-			defaultValue := reflect.New(property.ReflectedType()).Elem().Convert(valPtr.Type()).Interface()
+			defaultValue := reflect.Zero(valPtr.Type()).Interface()
 			if reflect.DeepEqual(defaultValue, value) {
 				continue
 			}
